@@ -10,6 +10,8 @@ master pools; V = free-running goroutines on the real objects, call/fetch/ret ev
 import copy
 import json
 
+import vlib
+
 import _control as K
 
 MANIFEST = {
@@ -129,13 +131,13 @@ def replay(ctx, cases, label):
 
 def trace_cfg():
     return cfg(spec="TraceSpec", allocs=3, k=4, inc=1, start=0, req=0, outcomes=ALL_OUTCOMES,
-               inv="BadFetchFails Distinct Increasing", post="POSTCONDITION TraceAccepted")
+               inv="TypeOK", post="POSTCONDITION TraceAccepted")
 
 
-def trace_sig(rj):
-    """classify a rejected trace by the invariant TLC reports and the fetch outcome the call had seen"""
-    why = rj["why"]
+def trace_sig(rj, reasons):
+    """classify a rejected trace by the reason the trace specification printed and the fetch outcome the call had seen"""
     ev = rj["event"]
+    why = reasons.get((str(rj["trace"]), str(ev.get("a")), str(ev.get("g"))), rj["why"])
     cls = "none"
     evs = rj["events"]
     idx = rj["index"]
@@ -145,13 +147,15 @@ def trace_sig(rj):
             break
         if e["ev"] == "call" and e["a"] == ev.get("a") and e["g"] == ev.get("g"):
             break
-    if why == "BadFetchFails":
-        return "C34 value issued after bad fetch: %s" % cls
-    if why == "Distinct":
-        return "C34 trace: duplicate value (last fetch of the call: %s)" % cls
-    if why == "Increasing":
-        return "C34 trace: value not increasing (last fetch of the call: %s)" % cls
-    return "C34 trace rejected at %s (%s)" % (ev.get("ev"), why)
+    if ev.get("ev") == "ret" and why == "BadFetchFails":
+        return "C34 value issued after bad fetch: %s" % cls, why
+    if ev.get("ev") == "ret" and why == "Distinct":
+        return "C34 trace: duplicate value (last fetch of the call: %s)" % cls, why
+    if ev.get("ev") == "ret" and why == "Increasing":
+        return "C34 trace: value not increasing (last fetch of the call: %s)" % cls, why
+    if ev.get("ev") == "fetch":
+        return "C34 harness fake-database-differs (trace)", why
+    return "C34 trace rejected at %s (%s)" % (ev.get("ev"), why), why
 
 
 def run_traces(ctx, runs, label, max_rejects=5):
@@ -160,8 +164,11 @@ def run_traces(ctx, runs, label, max_rejects=5):
     res, summ, out = ctx.harness(PKG, HARNESS, "^TestVerifSequenceRun$", runs, env={"VERIF_TRACE_OUT": tp})
     K.require_counts(summ, len(runs), label)
     lines = [e for e in ctx.read_ndjson(tp) if not e.get("summary")]
+    cap = K.capture_tlc(ctx)
+    del cap[:]
     ok, rejected = ctx.validate_traces("Sequence_trace", "seq_trace.cfg", lines, cfg_text=trace_cfg(),
                                        max_rejects=max_rejects, timeout=600)
+    reasons = K.reject_reasons(cap)
     ctx.cov["traces_validated_against_impl"] += ok + len(rejected)
     ctx.cov.setdefault("trace_events_validated", 0)
     ctx.cov["trace_events_validated"] += len(lines)
@@ -169,8 +176,11 @@ def run_traces(ctx, runs, label, max_rejects=5):
     ctx.cov["goroutine_calls_recorded"] += summ["calls"]
     byid = {r["t"]: r for r in runs}
     for rj in rejected:
-        ctx.deviation(trace_sig(rj), "TLC rejects the recorded run at event %d (%s): %s" % (
-            rj["index"], rj["why"], json.dumps(rj["event"], sort_keys=True)),
+        sig, why = trace_sig(rj, reasons)
+        if " harness " in sig:
+            raise vlib.Inconclusive("%s: %s" % (sig, json.dumps(rj["event"], sort_keys=True)))
+        ctx.deviation(sig, "TLC rejects the recorded run at event %d (%s): %s" % (
+            rj["index"], why, json.dumps(rj["event"], sort_keys=True)),
             {"kind": "trace", "run": byid.get(rj["trace"]), "trace": rj["events"][:rj["index"] + 1]})
     return lines
 
@@ -209,23 +219,34 @@ def run(ctx):
             replay(ctx, [c["case"]], "replay")
         elif c.get("kind") == "trace":
             if c.get("run"):
-                run_traces(ctx, [c["run"]], "replay")
+                # a goroutine run is not deterministic: execute the recorded run configuration several times
+                for attempt in range(6):
+                    rr = dict(c["run"])
+                    rr["t"] = attempt
+                    rr["seed"] = c["run"]["seed"] + attempt
+                    run_traces(ctx, [rr], "replay%d" % attempt)
+                    if ctx.violations or ctx.known_hits:
+                        break
+                else:
+                    ctx.log("the recorded run configuration was executed 6 times without reproducing the rejection")
             else:
                 ok, rej = ctx.validate_traces("Sequence_trace", "seq_trace.cfg", c["trace"], cfg_text=trace_cfg())
                 for rj in rej:
-                    ctx.deviation(trace_sig(rj), "replayed trace rejected", c)
+                    ctx.deviation(trace_sig(rj, {})[0], "replayed trace rejected", c)
         return
 
+    import os
+    stages = set((os.environ.get("VERIF_STAGES") or "mc,asis,bfs,sim,trace,selftest").split(","))  # development aid
     # 1. exhaustive model check of the design with the intended reply handling (Strict)
-    mcs = [dict(allocs=2, k=2, inc=2, req=5), dict(allocs=3, k=1, inc=1, req=5), dict(allocs=1, k=2, inc=3, req=8),
+    mcs = [dict(allocs=2, k=2, inc=2, req=4), dict(allocs=3, k=1, inc=1, req=3), dict(allocs=1, k=2, inc=3, req=8),
            dict(allocs=2, k=1, inc=3, req=6, limit=17)]
     if thorough:
-        mcs = [dict(allocs=2, k=2, inc=2, req=6), dict(allocs=3, k=1, inc=1, req=6), dict(allocs=3, k=1, inc=2, req=6),
+        mcs = [dict(allocs=2, k=2, inc=2, req=6), dict(allocs=3, k=1, inc=1, req=5), dict(allocs=3, k=1, inc=2, req=6),
                dict(allocs=1, k=2, inc=3, req=8), dict(allocs=2, k=1, inc=3, req=8), dict(allocs=2, k=1, inc=5, req=8),
-               dict(allocs=2, k=2, inc=1, req=6), dict(allocs=2, k=1, inc=3, req=7, limit=17),
-               dict(allocs=3, k=2, inc=2, req=5)]
-    for m in mcs:
-        r = ctx.tlc("Sequence", "seq_mc.cfg", extra_files={"seq_mc.cfg": cfg(**m)}, coverage=True, timeout=1500,
+               dict(allocs=2, k=2, inc=1, req=5), dict(allocs=2, k=1, inc=3, req=7, limit=17),
+               dict(allocs=3, k=2, inc=2, req=4)]
+    for m in mcs if "mc" in stages else []:
+        r = ctx.tlc("Sequence", "seq_mc.cfg", extra_files={"seq_mc.cfg": cfg(**m)}, coverage=(m is mcs[0]), timeout=1500,
                     label="exhaustive strict %s" % m)
         ctx.log("mc", m, r.stats(), "%.1fs" % r.wall)
         if r.zero_actions:
@@ -233,7 +254,7 @@ def run(ctx):
 
     # 2. the same design with the reply handling as written (ParseInt errors dropped, no sign check): candidates
     cands = {}
-    for inv in ("BadFetchFails", "Distinct", "Increasing"):
+    for inv in (("BadFetchFails", "Distinct", "Increasing") if thorough else ("BadFetchFails Distinct Increasing",)) if "asis" in stages else ():
         r = ctx.tlc("Sequence", "seq_asis.cfg", extra_files={"seq_asis.cfg": cfg(allocs=2, k=1, inc=2, req=4, strict=False, inv=inv)},
                     allow_violation=True, timeout=600, label="as-written reply handling, %s" % inv)
         cands[inv] = r.violated
@@ -242,23 +263,22 @@ def run(ctx):
 
     # 3. G: schedules
     nontriv = set()
-    plans = [dict(allocs=2, k=1, inc=2, req=3, outcomes=REPR), dict(allocs=2, k=2, inc=1, req=3, outcomes=["ok", "missing", "err_exec"]),
-             dict(allocs=3, k=1, inc=1, req=4, outcomes=["ok", "err_applied"])]
-    sims = [dict(allocs=3, k=2, inc=2, req=8, outcomes=HANDLED, num=300), dict(allocs=2, k=2, inc=3, req=8, outcomes=ALL_OUTCOMES, num=200),
-            dict(allocs=3, k=1, inc=1, req=6, outcomes=HANDLED, num=200, limit=16)]
+    plans = [dict(allocs=2, k=1, inc=2, req=3, outcomes=["ok", "err_applied", "missing", "nan_cur", "zero_inc", "neg_inc"]),
+             dict(allocs=2, k=2, inc=1, req=3, outcomes=["ok", "nan_inc"])]
+    sims = [dict(allocs=3, k=2, inc=2, req=8, outcomes=HANDLED, num=120), dict(allocs=2, k=2, inc=3, req=8, outcomes=ALL_OUTCOMES, num=80, limit=40)]
     if thorough:
-        plans = [dict(allocs=2, k=1, inc=2, req=3, outcomes=ALL_OUTCOMES), dict(allocs=2, k=1, inc=2, req=4, outcomes=["ok", "err_exec", "missing", "nan_inc", "zero_inc", "neg_inc"]),
-                 dict(allocs=2, k=2, inc=1, req=4, outcomes=["ok", "missing", "err_exec"]), dict(allocs=3, k=1, inc=1, req=4, outcomes=["ok", "err_applied", "nan_cur"]),
+        plans = [dict(allocs=2, k=1, inc=2, req=3, outcomes=ALL_OUTCOMES), dict(allocs=2, k=1, inc=2, req=4, outcomes=["ok", "missing", "zero_inc"]),
+                 dict(allocs=2, k=2, inc=1, req=3, outcomes=["ok", "missing", "err_exec"]), dict(allocs=3, k=1, inc=1, req=4, outcomes=["ok", "err_applied"]),
                  dict(allocs=1, k=2, inc=3, req=6, outcomes=["ok", "err_exec"]), dict(allocs=2, k=1, inc=3, req=6, outcomes=["ok"]),
                  dict(allocs=2, k=1, inc=5, req=6, outcomes=["ok", "fields1"], limit=27)]
-        sims = [dict(allocs=3, k=2, inc=2, req=8, outcomes=HANDLED, num=4000), dict(allocs=2, k=2, inc=3, req=8, outcomes=ALL_OUTCOMES, num=3000),
-                dict(allocs=3, k=1, inc=1, req=8, outcomes=HANDLED, num=3000, limit=16), dict(allocs=3, k=2, inc=5, req=8, outcomes=HANDLED, num=3000),
-                dict(allocs=2, k=2, inc=1, req=8, outcomes=REPR, num=3000)]
+        sims = [dict(allocs=3, k=2, inc=2, req=8, outcomes=HANDLED, num=1500), dict(allocs=2, k=2, inc=3, req=8, outcomes=ALL_OUTCOMES, num=1000),
+                dict(allocs=3, k=1, inc=1, req=8, outcomes=HANDLED, num=1000, limit=16), dict(allocs=3, k=2, inc=5, req=8, outcomes=HANDLED, num=1000),
+                dict(allocs=2, k=2, inc=1, req=8, outcomes=REPR, num=1000)]
     stored = [c["case"] for c in K.stored_finding_cases("C34", "schedule")]
     if stored:
         replay(ctx, copy.deepcopy(stored), "stored finding cases")
     sample_case = None
-    for p in plans:
+    for p in plans if "bfs" in stages else plans[:1]:
         lim = p.get("limit", 0)
         r = ctx.tlc("Sequence_gen", "seq_gen.cfg", workers=1, timeout=1200,
                     extra_files={"seq_gen.cfg": cfg(spec="GenSpec", allocs=p["allocs"], k=p["k"], inc=p["inc"], req=p["req"], limit=lim,
@@ -275,7 +295,7 @@ def run(ctx):
         ctx.sample(cases[len(cases) // 2])
         sample_case = sample_case or cases[len(cases) // 3]
         replay(ctx, cases, "bfs %s" % p)
-    for s in sims:
+    for s in sims if "sim" in stages else []:
         lim = s.get("limit", 0)
         r = ctx.tlc("Sequence_gen", "seq_gen.cfg", workers=1, mode="sim", sim="num=%d" % s["num"], depth=4 * s["req"] + 2,
                     seed=rng.randrange(1, 2 ** 31), timeout=600,
@@ -305,9 +325,9 @@ def run(ctx):
                        "outstanding at the same time or a session waits for an allocator's mutex, and some fetch outcome is not ok")
 
     # 4. V: goroutine runs recorded and validated by TLC
-    runs = mk_runs(ctx, rng, 24 if not thorough else 120, thorough)
+    runs = mk_runs(ctx, rng, 14 if not thorough else 60, thorough)
     lines = run_traces(ctx, runs, "free")
-    bad_classes = BAD_PARSE if thorough else rng.sample(BAD_PARSE, 3)
+    bad_classes = BAD_PARSE if thorough else rng.sample(BAD_PARSE, 1)
     bad_runs = []
     for i, b in enumerate(bad_classes):
         bad_runs += mk_runs(ctx, rng, 1, False, bad=b, t0=1000 + i)
